@@ -151,6 +151,7 @@ fn main() {
                 "inputassign" => sessrec::record_inputassign(seed, n, out, &mut rep),
                 "editprobe" => sessrec::record_editprobe(seed, n, out, &mut rep),
                 "fuzz" => sessrec::record_fuzz(seed, n, out, &mut rep),
+                "boundary" => sessrec::record_boundary(seed, n as u64, out, &mut rep),   // seed = shard index, n = number of shards
                 other => { eprintln!("unknown driver {}", other); std::process::exit(2); }
             }
             std::fs::write(&args[6], serde_json::to_string(&rep.to_json()).unwrap()).unwrap();
